@@ -63,6 +63,15 @@ CHECKS["C07"] = (
     "DESIGN.md section 6, C07",
 )
 
+CHECKS["C14"] = (
+    "exhaustive enumeration of every settings field x alternative values x spellings x forms x companions; golden table of approved constants",
+    "Exhaustive walk of all six settings trees: field metadata and constructor defaults against a committed golden table, every "
+    "developer field locked without developer_mode and accepted/recorded with it under 3 key spellings, dict/object input, 6 "
+    "companion inputs and 2 routes, invalid values and cross-field contradictions rejected, stored settings equal to the built ones.",
+    "Trusted: vf/ref/approved_settings.json (human-reviewed transcription) and the alternative-value tables in vf/props/c14.py.",
+    "DESIGN.md section 6, C14",
+)
+
 PENDING_REASON = "check not built yet in this session (work in progress; property-based testing applies and is planned, see DESIGN.md section 6)"
 
 
